@@ -24,7 +24,9 @@ EXPLANATION = (
     "clearing handler, and each _do*Op clears its slot on completion.")
 NOT_DECIDED = ("equality of outcomes across concrete schedules of recv/send sizes and would-block "
                "occurrences (needs executions); behaviour of user transports")
-TECHNIQUE = "idiom classification of generator consumption, yield-direction typestate on socket loops, sibling agreement"
+TECHNIQUE = ("idiom classification of generator consumption, yield-direction typestate on socket loops, sibling "
+             "agreement; fragmentation by interpreting _sendMsg's source over sample message lengths (checker's own "
+             "AST evaluator)")
 
 
 def rule_consume_c14(ctx):
